@@ -34,7 +34,9 @@ func init() {
 			{ID: "C16.R13", Text: "lag is computed against the vBucket's true high sequence number (same rule as C15.R16)", Run: seqnoMerge},
 			{ID: "C16.R14", Text: "each value appears under its own name: the constructor gives the descriptor field X the metric whose name spells X (words of the BuildFQName constants, generic suffixes current/total/ms aside; no name given twice) — the other half of the field ↔ value table of C16.R1", Run: descriptorNames},
 			{ID: "C16.R15", Text: "the counters of a vBucket survive a reopen: the reopened stream keeps the session's observer, whose switches only Stream.Close throws (same rule as C12.R6)", Run: switchOwner},
-			{ID: "C16.R16", Text: "member number, group size and range stay the values in effect until the streams are gone: the discovery's metric record is assigned only by the constructor (Get updates its fields from the membership in effect; Close does not reset it)", Run: fieldWriters("stream", "vBucketDiscovery", "vBucketDiscoveryMetric", "a scrape during shutdown would report member 0 of 0 while the streams are still open", "stream.NewVBucketDiscovery")},
+			{ID: "C16.R16", Text: "member number, group size and range stay the values in effect until the streams are gone: the discovery's metric record is assigned only by the constructor (Get updates its fields from the membership in effect; Close does not reset it)", Run: func(c *Ctx, id string) {
+				fieldWriters("stream", "vBucketDiscovery", c.W.discoveryMetricField(), "a scrape during shutdown would report member 0 of 0 while the streams are still open", "stream.NewVBucketDiscovery")(c, id)
+			}},
 			{ID: "C16.R5", Text: "active-stream count: set at open, decremented once per final end only (same rules as C12.R1, C12.R2)", Run: func(c *Ctx, id string) { c12r1(c, id); c12r2counter(c, id) }},
 		},
 	})
@@ -153,11 +155,11 @@ func c16r1(c *Ctx, id string) {
 		}
 		allInstrs(get, func(in ssa.Instruction) {
 			st, ok := in.(*ssa.Store)
-			if !ok || !strings.HasPrefix(w.Origin(st.Addr), "&recv.vBucketDiscoveryMetric.") {
+			if !ok || !strings.HasPrefix(w.Origin(st.Addr), "&recv."+w.discoveryMetricField()+".") {
 				return
 			}
 			n++
-			field := strings.TrimPrefix(w.Origin(st.Addr), "&recv.vBucketDiscoveryMetric.")
+			field := strings.TrimPrefix(w.Origin(st.Addr), "&recv."+w.discoveryMetricField()+".")
 			got := w.Origin(st.Val)
 			okv := false
 			switch field {
